@@ -20,8 +20,15 @@ Definition do_rect : M bool :=
                                    && negb (be_val (firstn 2 (skipn 8 r)) =? 0)
                                    && negb (be_val (firstn 2 (skipn 10 r)) =? 0))
                          (chunks csz_ExtDesktopScreen scr) in
+    (* client->screen = the last valid screen record *)
+    upd_st (fun s => fold_left (fun s r => if negb (be_val (firstn 4 r) =? 0)
+                                              && negb (be_val (firstn 2 (skipn 8 r)) =? 0)
+                                              && negb (be_val (firstn 2 (skipn 10 r)) =? 0)
+                                           then set_screen s (be_val (firstn 2 (skipn 8 r)), be_val (firstn 2 (skipn 10 r))) else s)
+                             (chunks csz_ExtDesktopScreen scr) s) ;;;
     s <- get_st ;;
     (if valid && (negb (c_w s =? w) || negb (c_h s =? h)) then resize w h else ret tt) ;;;
+    upd_st (fun s => set_reqrs s false) ;;;        (* the pending SetDesktopSize has been answered *)
     ret false else
   if enc =? cE_SupportedMessages then
     sm <- rd csz_SupportedMessages ;;
